@@ -137,6 +137,7 @@ type Exec struct {
 	UseSolver           bool
 	PruneCalls          bool // solver-check every outcome returned to the harness function
 	KeepHarnessOutcomes bool
+	NoOutcomeMerge      bool
 	MaxUnroll           int
 	MaxStates           int
 
@@ -675,7 +676,9 @@ func (ex *Exec) CallFunction(fn *ssa.Function, bind []Value, args []Value, g *te
 		ex.RawOutcomes += len(fr.outs)
 	}
 	outs := fr.outs
-	if depth != 1 || !ex.KeepHarnessOutcomes {
+	if ex.NoOutcomeMerge {
+		// the harness asked for full shape precision: every return path of every call stays a state of its own
+	} else if depth != 1 || !ex.KeepHarnessOutcomes {
 		// outcomes returned directly to the harness function stay separate: each keeps its precise path facts
 		// (digit counts, table indices), which the harness oracles need; deeper frames merge by shape
 		outs = ex.mergeOutcomes(fr, fr.outs)
@@ -898,6 +901,13 @@ func (ex *Exec) branch(fr *frame, st *State, b *ssa.BasicBlock, c *term.Term, st
 		st.G = term.And(st.G, conds[k])
 		ex.edge(fr, st, b, b.Succs[k])
 		return ex.runAt(fr, st, b.Succs[k], 0, stop)
+	}
+	if ex.Trace {
+		ex.tracef("fork %s %s visits=%d block=%d cond-size=%d", fr.fn.Name(), ex.pos(b.Instrs[len(b.Instrs)-1]), visits, b.Index, term.Size(c))
+		for _, v := range term.Vars(c) {
+			r := st.facts().rangeOf(v)
+			ex.tracef("    var %s [%d,%d]", v.Name, r.lo, r.hi)
+		}
 	}
 	var arrived []*State
 	for k := 0; k < 2; k++ {
